@@ -407,7 +407,10 @@ func (x *X) external(fr *Frame, st *State, fn *ssa.Function, args []SV, cc *ssa.
 	case "(reflect.Value).Pointer":
 		r := x.vc.define("addr", x.ufS("reflect_pointer", x.enc.intSortW(64), argT(0)))
 		x.vc.assume(x.enc.rangeFact(r, types.Typ[types.Uintptr]))
-		x.enc.assumption("reflect.Value.Pointer: a pure function of the value (non-moving GC, objects alive)")
+		if !x.enc.bv {
+			x.vc.assume(app(SBool, "<", r, bigLit("9223372036854775808")))
+		}
+		x.enc.assumption("reflect.Value.Pointer: a pure function of the value (non-moving GC, objects alive); addresses are below 2^63")
 		return []SV{r}
 	case "regexp.MustCompile", "regexp.Compile", "regexp/syntax.Parse", "regexp.QuoteMeta", "(*regexp.Regexp).MatchString":
 		rets := pureUF("pure function of its arguments")
@@ -594,12 +597,14 @@ func (x *X) collectMap(st *State, it *IterV, fn *ssa.Function) Term {
 	_, _, lenk := x.mapKeys(ks, vs)
 	ln := x.vc.define("maplen", mkIte(mkEq(it.m, intLit(0)), x.ic(0), mkSelect(x.get(st, lenk), it.m, isz)))
 	x.vc.assume(x.ile(x.ic(0), ln))
+	x.vc.assume(x.ile(ln, x.ic(0x3fffffffffffffff)))
 	r := x.newRef(st, "collected")
 	k := x.elemsKey(es)
 	inner := x.vc.fresh("collected", arraySort(isz, es))
 	st.mem[k] = x.vc.define("h", mkStore(x.get(st, k), r, inner))
 	cp := x.vc.fresh("collcap", isz)
 	x.vc.assume(x.ile(ln, cp))
+	x.vc.assume(x.ile(cp, x.ic(0x3fffffffffffffff)))
 	// slices.Collect of an empty sequence is nil
 	res := mkIte(mkEq(ln, x.ic(0)), x.enc.zero(rt), x.mkSlice(r, x.ic(0), ln, cp))
 	x.enc.assumption("slices.Collect(maps.Values/Keys(m)): a slice of len(m) elements, each a value/key of m (order arbitrary); nil when m is empty")
